@@ -160,11 +160,16 @@ ValuesOf(tc) ==
                                   ELSE {})
 
 Nil == Val("NIL", 0, "", "", <<>>)
+IsZeroV(x) == CASE x.ty \in Scalars \cup {"ENUM"} -> x.v = 0
+                [] x.ty = "STRUCT" -> x.xs = <<>>
+                [] OTHER -> FALSE               \* a non-nil empty collection is written (nil ones are not generated)
 
 Init == layout = <<>> /\ vals = <<>>
 
+IsUnion == \E i \in 1..Len(layout) : layout[i].ty = "UNION"
 AddField ==
   /\ Len(layout) < MaxFields
+  /\ ~IsUnion
   /\ \E id \in FieldIds, tc \in TypeChoices, req \in BOOLEAN, ptr \in BOOLEAN :
        /\ tc.ty \in GenTypes
        /\ \A i \in 1..Len(layout) : layout[i].id # id
@@ -174,15 +179,23 @@ AddField ==
             /\ layout' = Append(layout, [id |-> id, ty |-> tc.ty, e |-> tc.e, k |-> tc.k, req |-> req, ptr |-> ptr])
             /\ vals' = Append(vals, x)
 
-Next == AddField
+\* Option "union": the struct carries an interface field tagged `thrift:",union"`; at most one of its other fields may
+\* be set, Marshal writes it like any struct, and Unmarshal makes the interface field point to the field it decoded.
+\* Modelled as a last pseudo-entry of the layout (id 0, never written).
+AddUnion ==
+  /\ layout # <<>> /\ ~IsUnion
+  /\ \A i \in 1..Len(layout) : ~layout[i].req
+  /\ Cardinality({i \in 1..Len(layout) : vals[i].ty # "NIL" /\ (layout[i].ptr \/ ~IsZeroV(vals[i]))}) <= 1
+  /\ layout' = Append(layout, [id |-> 0, ty |-> "UNION", e |-> "", k |-> "", req |-> FALSE, ptr |-> FALSE])
+  /\ vals' = Append(vals, Nil)
+
+Next == AddField \/ AddUnion
 Spec == Init /\ [][Next]_vars
 
 -----------------------------------------------------------------------------
 (* The logical struct the package must write: fields in ascending id order; optional zero values and  *)
 (* nil pointers are left out, required fields are always written                                      *)
-IsZero(x) == CASE x.ty \in Scalars \cup {"ENUM"} -> x.v = 0
-               [] x.ty = "STRUCT" -> x.xs = <<>>
-               [] OTHER -> FALSE               \* a non-nil empty collection is written (nil ones are not generated)
+IsZero(x) == IsZeroV(x)
 Written(i) == /\ vals[i].ty # "NIL"
               /\ (layout[i].req \/ layout[i].ptr \/ ~IsZero(vals[i]))
 
